@@ -237,6 +237,15 @@ Fixpoint map_opt {A B} (f : A -> option B) (l : list A) : option (list B) :=
                end
   end.
 
+(** the treatment of one token found by finditer; [rec] is the recursive call on a bracket content *)
+Definition process (rec : str -> option (list tok)) (t : str) : option tok :=
+  if is_bracket_token t then
+    match rec (inner_of t) with Some l => Some (TL l) | None => None end
+  else match split_unit_power t with
+       | Some (u, p) => Some (TL [TS u; TS [c_caret]; TS p])
+       | None => Some (TS t)
+       end.
+
 (** __parse_unit_string_to_list ; [fuel] bounds the bracket recursion *)
 Fixpoint lex (fuel : nat) (s0 : str) : option (list tok) :=
   match fuel with
@@ -248,13 +257,7 @@ Fixpoint lex (fuel : nat) (s0 : str) : option (list tok) :=
         let ts := finditer (length s) true s in
         if gen_coverage_check && negb (str_eqb (concat ts) s) then None
         else
-          match map_opt (fun t =>
-                   if is_bracket_token t then
-                     match lex f (inner_of t) with Some l => Some (TL l) | None => None end
-                   else match split_unit_power t with
-                        | Some (u, p) => Some (TL [TS u; TS [c_caret]; TS p])
-                        | None => Some (TS t)
-                        end) ts with
+          match map_opt (process (lex f)) ts with
           | Some raw => group raw
           | None => None
           end
